@@ -21,6 +21,8 @@ def volumetricDrivingForce(therm: GeneralThermodynamics, x, T, precipitate: Prec
     '''
     x, T = _process_xT_arrays(x, T, therm.numElements == 2)
     chemDGs, betaComp = therm.getDrivingForce(x, T, precPhase=precipitate.phase, removeCache=removeCache)
+    #Driving force is None where equilibrium could not be computed, which becomes nan here
+    chemDGs = np.array(chemDGs, dtype=np.float64)
     volDGs = chemDGs / precipitate.volume.Vm
     volDGs -= precipitate.strainEnergy.compute(precipitate.shapeFactor.description.normalRadii(aspectRatio))
 
